@@ -235,7 +235,7 @@ def st(kw, text, doc=None, table=None, quote='"""'):
 
 TREES = {
     "basic": {"name": "Basic feature", "tags": ["f1", "f.two"], "desc": ["As a user", "I want: things"], "bg": None, "items": [
-        {"k": "s", "name": "First", "tags": ["s1"], "desc": [], "steps": [st("given", "a thing"), st("when", "I act"), st("then", "it works"),
+        {"k": "s", "name": "First", "tags": ["s1", "iss#7", "last"], "desc": [], "steps": [st("given", "a thing"), st("when", "I act"), st("then", "it works"),
                                                                              st("and", "more"), st("but", "not this")]},
         {"k": "s", "name": "Second: with colon", "tags": [], "desc": ["some description"], "steps": [st("star", "generic first"), st("when", "x"), st("star", "generic after when")]},
     ]},
